@@ -111,9 +111,17 @@ def run_job(job):
         rows = rows_of(ctx)
         wit = wit_for(rows)
         sympd.WRITTEN.clear()
-        sympd.WRITTEN['out/pairwise_ranks.tsv'] = {'columns': ['FeatureA', 'FeatureB', 'Score'],
+        sympd.WRITTEN['prev/pairwise_ranks.tsv'] = sympd.WRITTEN['out/pairwise_ranks.tsv'] = {'columns': ['FeatureA', 'FeatureB', 'Score'],
                                                    'rows': [[a, b, (SReal(z=st['s'][i]) if numeric else SReal.of(symx.F(str(NUMS[i]))))] for i, (a, b) in enumerate(rows)], 'index': False}
         args = types.SimpleNamespace(output_folder='out', label_column='label', heuristic=heur, tldr=False, interaction_order=order)
+        if not numeric:
+            # a history in one process: an earlier summary of the same table with ANOTHER label column must not influence this one
+            try:
+                ns['outrank_task_result_summary'](types.SimpleNamespace(output_folder='prev', label_column='BRAND', heuristic=heur, tldr=False, interaction_order=order))
+            except Exception:
+                pass
+            sympd.WRITTEN.pop(os.path.join('out', 'feature_singles.tsv'), None)
+            sympd.WRITTEN.pop(os.path.join('out', 'feature_singles_aggregated.tsv'), None)
         opp = {}
         for i, (a, b) in enumerate(rows):
             if a == LABEL and b != LABEL:
@@ -197,6 +205,13 @@ def replay(w):
         pd.DataFrame(w['rows'], columns=['FeatureA', 'FeatureB', 'Score']).to_csv(os.path.join(d, 'pairwise_ranks.tsv'), sep='\t', index=False)
         args = types.SimpleNamespace(output_folder=d, label_column='label', heuristic=w['heur'], tldr=False, interaction_order=w['order'])
         try:
+            try:
+                ts.outrank_task_result_summary(types.SimpleNamespace(output_folder=d, label_column='BRAND', heuristic=w['heur'], tldr=False, interaction_order=w['order']))
+            except Exception:
+                pass
+            for f in ('feature_singles.tsv', 'feature_singles_aggregated.tsv'):
+                if os.path.exists(os.path.join(d, f)):
+                    os.remove(os.path.join(d, f))
             ts.outrank_task_result_summary(args)
         except Exception as e:
             return {'reproduced': True, 'signature': f'C18:exception:{type(e).__name__}', 'what': f'rows {w["rows"]}: {type(e).__name__}: {e}'}
